@@ -3,4 +3,14 @@ EXTENDS Render3D
 TS21 == <<2, 1>>
 TS2 == <<2>>
 TS1 == <<1>>
+\* tile lists of the recorded tile-decision traces (Trace_Tiles3.tla)
+TS_2_1 == <<2, 1>>
+TS_2 == <<2>>
+TS_4 == <<4>>
+TS_8 == <<8>>
+TS_4_2 == <<4, 2>>
+TS_4_2_1 == <<4, 2, 1>>
+TS_8_4 == <<8, 4>>
+TS_8_2 == <<8, 2>>
+TS_8_4_2 == <<8, 4, 2>>
 ====
